@@ -1293,12 +1293,13 @@ class dictable(Dict):
         rs = type(self)(xys, x + (y_,))        
         ys = rs[as_list(y_)].listby(y_)
         y2id = dict(zip(ys[y_], range(len(ys))))
+        _, yrows = rs._listby((y_,)) # the same grouping (by cmp) and order as ys
+        j2k = {j : k for k, js in enumerate(yrows) for j in js} # the column of each (x,y) group
         xs, yids = rs._listby(x)
         res = [[None for _ in range(len(ys))] for _ in range(len(xs))]
         for i in range(len(xs)):
             for j in yids[i]:
-                xy = xys[j]
-                k = y2id[xy[-1]]
+                k = j2k[j]
                 value = [zs[id_] for id_ in ids[j]]
                 if agg:
                     for a in agg:
